@@ -402,7 +402,8 @@ def check_property(pid, tier, seed, replay_only=None):
         for mm in mism:
             op = op_of(mm["cmd"])
             owned = P.get("owns")
-            if owned is not None and op not in owned:
+            owns_fn = P.get("owns_fn")
+            if (owns_fn is not None and not owns_fn(op, mm, suite)) or (owns_fn is None and owned is not None and op not in owned):
                 out["foreign"].append({"suite": suite, "seed": sd, "op": op, "line": mm["line"]})
                 continue
             script = minimise(lines, mm["line"], op, budget=60 if tier == "quick" else 200)
